@@ -59,12 +59,13 @@ def propose(w: S.SWorld, rng: random.Random, prof: Profile):
         if top is not None and id(top) not in group_scope_ids and id(top) not in handle_scope_ids:
             i = w.sid(top)
             cands.append((W["exit"], (S.EXIT, t, i, int(i in p.failat_cms))))
-        if nscopes:
-            cands.append((W["exit_misuse"], (S.EXIT, t, rng.randrange(1, nscopes + 1), 0)))
-            act = [i + 1 for i, sc in enumerate(w.scopes) if sc._active]
-            pool = act if act and rng.random() < 0.8 else list(range(1, nscopes + 1))
+        pub = w.public_scopes
+        if pub:
+            cands.append((W["exit_misuse"], (S.EXIT, t, rng.choice(pub), 0)))
+            act = [i for i in pub if w.scopes[i - 1]._active]
+            pool = act if act and rng.random() < 0.8 else pub
             cands.append((W["cancel"], (S.CANCEL, t, rng.choice(pool), 0)))
-        for sc in own[:2]:
+        for sc in [x for x in own if w.sid(x) in pub][:2]:
             cands.append((W["setshield"] / 2, (S.SETSHIELD, t, w.sid(sc), int(not sc._shield))))
             cands.append((W["setdeadline"] / 2, (S.SETDEADLINE, t, w.sid(sc), rng.choice([-1, now, now + 1, now + 3, now + 6]))))
         if len(w.groups) < W["max_groups"] and depth < W["max_depth"]:
@@ -84,9 +85,9 @@ def propose(w: S.SWorld, rng: random.Random, prof: Profile):
         if p.task_status is not None:
             fut = p.task_status._future
             cands.append((W["started"] if not fut.done() else W["started_misuse"], (S.STARTED, t, rng.randrange(1, 9), 0)))
-        if w.spawned_tids:
-            cands.append((W["hcancel"], (S.HCANCEL, t, rng.choice(w.spawned_tids), 0)))
-            cands.append((W["hwait"], (S.HWAIT, t, rng.choice(w.spawned_tids), 0)))
+        if w.public_handles:
+            cands.append((W["hcancel"], (S.HCANCEL, t, rng.choice(w.public_handles), 0)))
+            cands.append((W["hwait"], (S.HWAIT, t, rng.choice(w.public_handles), 0)))
         cands.append((W["yield_"], (S.YIELD, t, 0, 0)))
         cands.append((W["ckif"], (S.CKIF, t, 0, 0)))
         cands.append((W["shieldck"], (S.SHIELDCK, t, 0, 0)))
@@ -109,8 +110,8 @@ def propose(w: S.SWorld, rng: random.Random, prof: Profile):
     if nt is not None and nt != math.inf:
         cands.append((W["tick"], (S.TICK, max(int(nt - w.loop.time()), 0), 0, 0)))
     cands.append((W["tick"] * 0.15, (S.TICK, 1, 0, 0)))
-    if nscopes:
-        cands.append((W["extcancel"], (S.EXTCANCEL, rng.randrange(1, nscopes + 1), 0, 0)))
+    if w.public_scopes:
+        cands.append((W["extcancel"], (S.EXTCANCEL, rng.choice(w.public_scopes), 0, 0)))
     live = [t for t, p in w.puppets.items() if not p.finished and (p.task or getattr(p, "pre_task", None)) is not None
             and not (p.task or p.pre_task).done()]
     if live:
